@@ -6,7 +6,7 @@ join, literal-only with and without the optimizer, CASE branch / CASE condition,
 sub-expression).  Where the documentation leaves the value open (NaN ordering, shifts beyond the width,
 factorial overflow ...) only the agreement of the contexts is checked.
 """
-import json, math, itertools, datetime
+import json, math, itertools, datetime, re
 from fractions import Fraction
 from vf import run as vrun
 from vf import fnref as R
@@ -1155,6 +1155,86 @@ def run(chk):
         chk.floor(chk.evaluations > 500000, "fewer than 500000 values judged")
         chk.floor(chk.counters.get("doc_examples_checked", 0) >= 40, "fewer than 40 documented examples checked")
     chk.extra["contexts"] = list(CONTEXTS)
+    if not only:
+        guarded_evaluation(chk, rng, thorough)
+
+
+def guarded_evaluation(chk, rng, thorough):
+    """A sub-expression that fails on some rows, written under a CASE guard that excludes exactly those rows, and written
+    several times in one statement (select list, two CASE expressions, WHEN and THEN of one CASE, WHERE): the guard must keep
+    protecting it wherever common sub-expressions are shared. Failing operations: text casts (clean errors, no recorded finding)."""
+    cases = []
+    meta = {}
+    for gi in range(60 if thorough else 12):
+        n = rng.choice([3, 9, 40, 300])
+        rows = []
+        for i in range(n):
+            k = rng.random()
+            s = str(rng.randint(-500, 500)) if k < 0.6 else rng.choice(["n/a", "", "x1", "1.5.2", "--3"]) if k < 0.9 else None
+            rows.append((i, s))
+        ok = lambda s_: s_ is not None and re.fullmatch(r"-?\d+", s_) is not None
+        guard = "regexp_like(s, '^-?[0-9]+$')"
+        bad_first = rng.random() < 0.5
+        if bad_first:
+            rows.sort(key=lambda r: ok(r[1]))
+        steps = [{"sql": "CREATE TEMP TABLE g (id INT, s TEXT)", "out": "count"}]
+        for lo in range(0, n, 200):
+            steps.append({"sql": "INSERT INTO g VALUES " + ", ".join(f"({i}, {'NULL' if s_ is None else chr(39) + s_ + chr(39)})" for i, s_ in rows[lo:lo + 200]), "out": "count"})
+        steps.append({"sql": f"SET batch_size TO {rng.choice([1, 4, 2048])}", "out": "count"})
+        steps.append({"sql": f"SET enable_optimizer TO {rng.choice(['true', 'true', 'false'])}", "out": "count"})
+        nload = len(steps)
+        E = "CAST(s AS INT)"
+        iv = lambda s_: int(s_) if ok(s_) else None
+        qs = [
+            (f"SELECT id, CASE WHEN {guard} THEN {E} ELSE -1 END, CASE WHEN {guard} THEN {E} + 1 ELSE -2 END FROM g",
+             [(i, iv(s_) if ok(s_) else -1, iv(s_) + 1 if ok(s_) else -2) for i, s_ in rows]),
+            # (nested CASE, not AND: only CASE promises not to evaluate what its condition excludes)
+            (f"SELECT id, CASE WHEN {guard} THEN CASE WHEN {E} > 0 THEN {E} ELSE 0 END ELSE 0 END FROM g",
+             [(i, iv(s_) if ok(s_) and iv(s_) > 0 else 0) for i, s_ in rows]),
+            (f"SELECT id, CASE WHEN {guard} THEN {E} * 2 END AS a, CASE WHEN NOT coalesce({guard}, false) THEN -1 ELSE {E} END AS b FROM g",
+             [(i, iv(s_) * 2 if ok(s_) else None, iv(s_) if ok(s_) else -1) for i, s_ in rows]),
+            (f"SELECT id FROM g WHERE CASE WHEN {guard} THEN {E} ELSE 0 END > 10 AND CASE WHEN {guard} THEN {E} ELSE 0 END < 400",
+             [(i,) for i, s_ in rows if ok(s_) and 10 < iv(s_) < 400]),
+            (f"SELECT sum(CASE WHEN {guard} THEN {E} ELSE 0 END), count(CASE WHEN {guard} THEN {E} END), max(CASE WHEN {guard} THEN {E} END) FROM g",
+             [(sum(iv(s_) for i, s_ in rows if ok(s_)) if rows else None, sum(1 for i, s_ in rows if ok(s_)), max([iv(s_) for i, s_ in rows if ok(s_)], default=None))]),
+            (f"SELECT id, coalesce(CASE WHEN {guard} THEN {E} END, -7), CASE WHEN {guard} THEN {E} END IS NULL FROM g",
+             [(i, iv(s_) if ok(s_) else -7, not ok(s_)) for i, s_ in rows]),
+        ]
+        for sql, _ in qs:
+            steps.append({"sql": sql})
+        c = {"id": f"c05-guard-{gi}", "exec": {"kind": "det", "policy": "random", "seed": rng.randint(0, 1 << 30), "partitions": rng.choice([1, 2, 4])}, "steps": steps, "max_rows": 2000}
+        cases.append(c)
+        meta[c["id"]] = (nload, qs, any(not ok(s_) for _, s_ in rows))
+    results, _ = vrun.run_sharded(cases, shards=16, wall_s=600)
+    from vf import compare as _cmp
+    for c in cases:
+        nload, qs, has_bad = meta[c["id"]]
+        r = results.get(c["id"])
+        if r is None or "steps" not in r:
+            chk.inconc("guarded-evaluation case not run")
+            continue
+        if any(st["outcome"] not in ("rows", "empty") for st in r["steps"][:nload]):
+            chk.inconc("guarded-evaluation table could not be loaded")
+            continue
+        for qi, ((sql, want), st) in enumerate(zip(qs, r["steps"][nload:])):
+            if st["outcome"] == "skipped":
+                break
+            chk.evaluated(len(want))
+            replay = {"cases": [c], "sql": sql}
+            if st["outcome"] == "panic":
+                chk.violation(outcome_signature(st), f"guarded evaluation: panic {st.get('panic_msg')} @ {st.get('panic_loc')}\n  {sql}", replay)
+                break
+            if st["outcome"] != "rows":
+                first = (st.get("error") or "").split("\n")[0]
+                chk.violation({"kind": "guarded-expression-evaluated", "shape": qi}, f"an expression guarded by CASE was evaluated for rows its guard excludes (or the statement failed otherwise): {first}\n  {sql}", replay)
+                continue
+            got = [_cmp.dec_row(x) for x in st.get("rows", [])]
+            okb, why = _cmp.bag_equal([tuple(w) for w in want], got)
+            if not okb:
+                chk.violation({"kind": "wrong-value", "fn": "case-guard", "shape": qi}, f"guarded evaluation: {why}\n  {sql}", replay)
+            elif has_bad:
+                chk.nontrivial(("case-guard", qi, c["id"]))
+                chk.count("values/guarded", len(want))
 
 
 # ---- boolean logic ---------------------------------------------------------------------------
